@@ -68,7 +68,7 @@ def all_cases(tier, double=None):
     else:
         cases = structure_cases(11) + deviation_cases(
             True if double is None else double)
-    cases = cases + large_cases()
+    cases = cases + large_cases() + coincidence_cases()
     _CACHE[key] = cases
     return cases
 
@@ -178,6 +178,56 @@ def large_cases_for(n):
                               "nodeset": ("set<UUID>", frozenset(
                                   U(1000 + i) for i in range(n)))})
         return ("large/n=%d" % n, ir)
+
+
+def coincidence_cases():
+    """Every constant of the three module-level enums combined with values
+    that mean something special to SOME file format / word size / tool:
+    padded, cased and mangled names, extents ending exactly at 2^16, 2^31,
+    2^32, 2^63 and 2^64, values at those bounds.  A reader or writer that
+    treats one combination specially (PE section names, 32-bit address
+    spaces, ...) differs from the schema on exactly one of these."""
+    U = irgen.U
+    en = enum_numbers()
+    names = [".text\0\0\0", ".data   ", " .lead", ".TEXT", ".text", "",
+             "abcdefgh", "/4", ".rdata$zzz", "__TEXT,__text"]
+    extents = [(0xFFFF0000, 0x10000), (0xFFFFFFFF, 1), (1 << 32, 16),
+               (0x7FFFFFF0, 0x20), (0xFFF0, 0x10), ((1 << 64) - 16, 16),
+               ((1 << 63) - 8, 16), (0, 0), (0x1000, 0x1000)]
+    synames = ["?f@@YAXXZ", "_start", "", "sym@plt", "sym@@GLIBC_2.2.5",
+               "$d", "$t", ".L1", "main ", "type.[4]uint8"]
+
+    def make(**kw):
+        secs = []
+        k = 0
+        for i, nm in enumerate(names):
+            ivs = []
+            if i < len(extents):
+                a, sz = extents[i]
+                blk = [irgen.mk_block("code" if i % 2 else "data", 100 + i,
+                                      offset=0, size=min(sz, 4),
+                                      decode_mode=i % 2)]
+                ivs = [irgen.mk_interval(200 + i, address=a, size=sz,
+                                         contents=b"\x90" * min(sz, 4),
+                                         blocks=blk)]
+            secs.append(irgen.mk_section(300 + i, nm, flags=[i % 6 + 1],
+                                         intervals=ivs))
+        syms = [irgen.mk_symbol(400 + i, nm,
+                                ("ref", U(100 + i)) if i < len(extents)
+                                else ("value", (1 << 32) + i))
+                for i, nm in enumerate(synames)]
+        m = irgen.mk_module(500, "mod.exe", sections=secs, symbols=syms,
+                            entry=U(101), preferred_addr=0x400000, **kw)
+        return irgen.mk_ir(501, modules=[m],
+                           cfg=[(U(101), U(103), (1, True, False))])
+
+    out = []
+    for field, key in (("file_format", "FileFormat"), ("isa", "ISA"),
+                       ("byte_order", "ByteOrder")):
+        for num in en[key]:
+            out.append(("coincidence/%s=%d" % (field, num),
+                        make(**{field: num})))
+    return out
 
 
 def reader_cases(tier):
